@@ -26,7 +26,7 @@ ELEMS = ["mi", "mo", "mtext", "mn"]
 BASE_PREFS = {
     "SpeechOverrides_CapitalLetters": "", "CapitalLetters_UseWord": "true", "CapitalLetters_Pitch": "0", "CapitalLetters_Beep": "false",
     "Impairment": "Blindness", "Bookmark": "false", "PauseFactor": "100", "MathRate": "100", "Pitch": "0", "Rate": "180", "Volume": "100",
-    "SpeechSound": "None",
+    "SpeechSound": "None", "CheckRuleFiles": "Prefs",
 }
 CAP_VARIANTS = [
     {}, {"SpeechOverrides_CapitalLetters": "big"}, {"CapitalLetters_UseWord": "false"}, {"CapitalLetters_Pitch": "30"},
@@ -114,6 +114,10 @@ def random_extra(rng, caps=True):
         cs = clearspeak_prefs()
         for k in rng.sample(sorted(cs), rng.randint(1, 3)):
             extra[k] = rng.choice(cs[k])
+    if rng.random() < 0.3:
+        # the re-reading policy of the rule files: the session moves from configuration to configuration, and a preference change must take
+        # effect whether or not the files are looked at again
+        extra["CheckRuleFiles"] = rng.choice(["None", "None", "All"])
     return extra
 
 
